@@ -29,7 +29,7 @@ let vals0 c m t =
 let layout () =
   let c = code_now in
   List.iteri (fun idx m ->
-      let t = build c m in
+      let t = build_z c m in
       let ne = List.length m.ms_elems in
       Printf.printf "idx=%d nb=%d grav=%d nlock=%d ncons=%d elems=%s nvars=%d nres=%d v_lock=%s v_cons=%s v_en=%s v_par=%s v_gexcl=%s v_gmag=%d v_gdir=%d v_gzh=%d r_grav=%d r_total=%d r_accel=%d wf=%b sound=%b unsound=%s\n"
         idx (n2i m.ms_nb) (if m.ms_grav then 1 else 0) (n2i m.ms_nlock) (n2i m.ms_ncons) (ilist m.ms_elems) (n2i (nvars t)) (n2i (nres t))
@@ -44,7 +44,7 @@ let layout () =
 
 let run old =
   let c = the_code old in
-  let m = ref (List.hd models) in let t = ref (build c !m) in let s = ref (init !t []) in
+  let m = ref (List.hd models) in let t = ref (build_z c !m) in let s = ref (init !t []) in
   let out = Buffer.create 65536 in
   let status () =
     let st = !s in let mm = !m in
@@ -57,7 +57,7 @@ let run old =
   (try while true do
       let line = input_line stdin in
       match List.filter (fun x -> x <> "") (String.split_on_char ' ' line) with
-      | "M" :: idx :: _ -> m := List.nth models (int_of_string idx); t := build c !m; Buffer.add_string out ("SYS " ^ idx ^ "\n")
+      | "M" :: idx :: _ -> m := List.nth models (int_of_string idx); t := build_z c !m; Buffer.add_string out ("SYS " ^ idx ^ "\n")
       | "H" :: id :: _ -> s := init !t (vals0 c !m !t); Buffer.add_string out ("H " ^ id ^ "\n")
       | "v" :: v :: x :: _ -> s := step !t !s (SetVar (i2n (int_of_string v), i2n (int_of_string x)))
       | "r" :: g :: _ -> s := step !t !s (Realize (i2n (int_of_string g)))
